@@ -328,6 +328,10 @@ def o8(h, st):
     h.done()
 
 
+from tverif.engine import repeatable
+repeatable((FO, "number_operator_list"), (FO, "spinz_operator_list"), (FO, "spin2_operator_list"), (FO, "number_operator"), (FO, "spinz_operator"), (FO, "spin2_operator"),
+           (PT, "number_operator_penalty"), (PT, "spin_operator_penalty"), (PT, "spin2_operator_penalty"), (PT, "combined_penalty"))
+
 PROPERTY = {
     "level": "other",
     "explanation": "N and Sz act with the physical eigenvalues on every determinant and S^2 equals S_-S_+ + Sz^2 + Sz (exact rational matrices built from the AST of the "
